@@ -157,6 +157,25 @@ theorem C19_status (M : Sys σ α) (key : σ → Nat) (exps : List Expect) (snap
         | none => rw [hls] at hl; cases hl
         | some s => rw [hls] at hl; simp at hl; exact ⟨s, rfl, hl⟩
 
+/-- encoded form → url → fingerprints: the string `Path::encode` produces (decimal fingerprints joined
+by `/`), appended to `/.states/`, is parsed by the Explorer back into exactly the path's fingerprint
+sequence — for fingerprints in the range of `NonZeroU64` — so the three forms of a path (action list,
+fingerprint list, encoded string) denote the same execution (`C19_fp_roundtrip`, `C19_actions_roundtrip`). -/
+theorem C19_url_roundtrip (M : Sys σ α) (key : σ → Nat) (inj : ∀ x y, key x = key y → x = y)
+    (hkey : ∀ s, 0 < key s ∧ key s < 18446744073709551616) (p : Path σ α) (h : IsExec M p) :
+    parseFps ("/" ++ encodeStr key p) = some (encode key p) ∧
+    ∃ s, lastState p = some s ∧ statesView M key ("/" ++ encodeStr key p) = some (rowsAt M s) := by
+  obtain ⟨s0, hs0, he⟩ := h
+  obtain ⟨x, rest, hp⟩ := execFrom_ne_nil he
+  have hne : p ≠ [] := by rw [hp]; simp
+  have hparse := parseFps_encodeStr key p hne (by
+    intro f hf
+    simp only [encode, List.mem_map] at hf
+    obtain ⟨e, _, rfl⟩ := hf
+    exact hkey e.1)
+  refine ⟨hparse, ?_⟩
+  exact (C19_states_view M key inj _).1 _ p hparse (by rw [hp]; simp [encode]) ⟨s0, hs0, he⟩ rfl
+
 -- on-demand scheduler: lead
 -- (C19_on_demand_targeted / C19_on_demand_complete are theorems about the checker machine of
 --  lean/SR/Checker/*; the harness of this property observes them on the real on-demand checker.)
@@ -185,6 +204,8 @@ example : statesView exM exKey "/100" =
     some [.step 0 (some 1), .step 1 (some 2), .step 2 none] := by decide
 example : statesView exM exKey "/100/103/" = none := by decide
 example : statesView exM exKey "/100/abc" = none := by decide
+example : encodeStr exKey exPath = "100/102/103" := by decide
+example : statesView exM exKey ("/" ++ encodeStr exKey exPath) = some [.step 0 (some 0)] := by decide
 example : (statusView exM exKey [.always] ⟨true, 5, 4, 3, [(103, some 102), (102, some 100), (100, none)], [(0, 103)]⟩).props
     = [(.always, 0, some [100, 102, 103])] := by decide
 
